@@ -43,6 +43,8 @@ func init() {
 			{Name: "client-auth-set-after-resumption", File: "bfe_tls/handshake_server.go", Old: "	if rule != nil && rule.ClientAuth {\n		c.clientAuth = RequireAndVerifyClientCert\n		c.clientCAs = rule.ClientCAs\n		c.clientCAName = rule.ClientCAName\n		c.clientCRLPool = rule.ClientCRLPool\n	}\n\n	// check whether chacha20-poly1305 is enabled for current connection\n	if rule != nil {\n		hs.chachaOk = rule.Chacha20\n	}\n\n	// See RFC 7507: refuse an inappropriate fallback before deciding on\n	// resumption, otherwise a resumable hello bypasses the check.\n	for _, id := range hs.clientHello.cipherSuites {\n		if id == TLS_FALLBACK_SCSV {\n			// The client is doing a fallback connection.\n			if hs.clientHello.vers < c.config.maxVersion() {\n				c.sendAlert(alertInappropriateFallback)\n				return false, errors.New(\"tls: client using inppropriate protocol fallback\")\n			}\n			break\n		}\n	}\n\n	if hs.checkForResumption() {\n		return true, nil\n	}\n", New: "	// check whether chacha20-poly1305 is enabled for current connection\n	if rule != nil {\n		hs.chachaOk = rule.Chacha20\n	}\n\n	// See RFC 7507: refuse an inappropriate fallback before deciding on\n	// resumption, otherwise a resumable hello bypasses the check.\n	for _, id := range hs.clientHello.cipherSuites {\n		if id == TLS_FALLBACK_SCSV {\n			// The client is doing a fallback connection.\n			if hs.clientHello.vers < c.config.maxVersion() {\n				c.sendAlert(alertInappropriateFallback)\n				return false, errors.New(\"tls: client using inppropriate protocol fallback\")\n			}\n			break\n		}\n	}\n\n	if hs.checkForResumption() {\n		return true, nil\n	}\n	if rule != nil && rule.ClientAuth {\n		c.clientAuth = RequireAndVerifyClientCert\n		c.clientCAs = rule.ClientCAs\n		c.clientCAName = rule.ClientCAName\n		c.clientCRLPool = rule.ClientCRLPool\n	}\n", Expect: "policy-before-resume"},
 			{Name: "resumed-master-secret-fresh", File: "bfe_tls/handshake_server.go", Old: "	hs.masterSecret = hs.sessionState.masterSecret\n", New: "	hs.masterSecret = hs.clientHello.random\n", Expect: "resume-copy"},
 			{Name: "ticket-stores-client-version", File: "bfe_tls/handshake_server.go", Old: "	state := sessionState{\n		vers:         c.vers,", New: "	state := sessionState{\n		vers:         hs.clientHello.vers,", Expect: "issue-state"},
+			{Name: "silent-cache-lookup-and-cert-policy-extracted", Silent: true, File: "bfe_tls/handshake_server.go", Old: "\t\t\tsessionCache := c.config.ServerSessionCache\n\t\t\tsessionParam, ok := sessionCache.Get(fmt.Sprintf(\"%x\", hs.clientHello.sessionId))\n\t\t\tif !ok {\n\t\t\t\treturn false\n\t\t\t}\n\n\t\t\tcandidateSession := new(sessionState)\n\t\t\tif ok := candidateSession.unmarshal(sessionParam); !ok {\n\t\t\t\treturn false\n\t\t\t}\n\t\t\ths.sessionState = candidateSession\n\t\t}\n\t}\n\n\tif hs.sessionState == nil || hs.sessionState.vers > hs.clientHello.vers {\n\t\treturn false\n\t}\n\tif vers, ok := c.config.mutualVersion(hs.sessionState.vers); !ok || vers != hs.sessionState.vers {\n\t\treturn false\n\t}\n\t// Never resume a session for a different TLS version.\n\tif c.vers != hs.sessionState.vers {\n\t\treturn false\n\t}\n\n\tcipherSuiteOk := false\n\t// Check that the client is still offering the ciphersuite in the session.\n\tfor _, id := range hs.clientHello.cipherSuites {\n\t\tif id == hs.sessionState.cipherSuite {\n\t\t\tcipherSuiteOk = true\n\t\t\tbreak\n\t\t}\n\t}\n\tif !cipherSuiteOk {\n\t\treturn false\n\t}\n\n\t// Check that we also support the ciphersuite from the session.\n\ths.suite, _ = c.tryCipherSuite(hs.sessionState.cipherSuite, c.config.cipherSuites(), hs.sessionState.vers,\n\t\ths.ellipticOk, hs.ecdsaOk, hs.chachaOk, hs.useRC4)\n\tif hs.suite == nil {\n\t\treturn false\n\t}\n\n\tsessionHasClientCerts := len(hs.sessionState.certificates) != 0\n\tneedClientCerts := c.clientAuth == RequireAnyClientCert || c.clientAuth == RequireAndVerifyClientCert\n\tif needClientCerts && !sessionHasClientCerts {\n\t\treturn false\n\t}\n\tif sessionHasClientCerts && c.clientAuth == NoClientCert {\n\t\treturn false\n\t}\n\n\tif hs.sessionTicketOK {\n\t\tstate.TlsHandshakeShouldResumeSessionTicket.Inc(1)\n\t} else {\n\t\tstate.TlsHandshakeShouldResumeSessionCache.Inc(1)\n\t}\n\n\ths.validateHttp2Accepted()\n\n\treturn true", New: "\t\t\tcandidateSession, found := hs.loadSessionFromCache(c.config.ServerSessionCache)\n\t\t\tif !found {\n\t\t\t\treturn false\n\t\t\t}\n\t\t\ths.sessionState = candidateSession\n\t\t}\n\t}\n\n\tif hs.sessionState == nil || hs.sessionState.vers > hs.clientHello.vers {\n\t\treturn false\n\t}\n\tif vers, ok := c.config.mutualVersion(hs.sessionState.vers); !ok || vers != hs.sessionState.vers {\n\t\treturn false\n\t}\n\t// Never resume a session for a different TLS version.\n\tif c.vers != hs.sessionState.vers {\n\t\treturn false\n\t}\n\n\tcipherSuiteOk := false\n\t// Check that the client is still offering the ciphersuite in the session.\n\tfor _, id := range hs.clientHello.cipherSuites {\n\t\tif id == hs.sessionState.cipherSuite {\n\t\t\tcipherSuiteOk = true\n\t\t\tbreak\n\t\t}\n\t}\n\tif !cipherSuiteOk {\n\t\treturn false\n\t}\n\n\t// Check that we also support the ciphersuite from the session.\n\ths.suite, _ = c.tryCipherSuite(hs.sessionState.cipherSuite, c.config.cipherSuites(), hs.sessionState.vers,\n\t\ths.ellipticOk, hs.ecdsaOk, hs.chachaOk, hs.useRC4)\n\tif hs.suite == nil {\n\t\treturn false\n\t}\n\n\tif !sessionMatchesClientAuth(hs.sessionState, c.clientAuth) {\n\t\treturn false\n\t}\n\n\tif hs.sessionTicketOK {\n\t\tstate.TlsHandshakeShouldResumeSessionTicket.Inc(1)\n\t} else {\n\t\tstate.TlsHandshakeShouldResumeSessionCache.Inc(1)\n\t}\n\n\ths.validateHttp2Accepted()\n\n\treturn true\n}\n\n// sessionMatchesClientAuth reports whether the client certificates recorded in\n// the session are compatible with the client-auth policy of the connection.\nfunc sessionMatchesClientAuth(session *sessionState, clientAuth ClientAuthType) bool {\n\tsessionHasClientCerts := len(session.certificates) != 0\n\tneedClientCerts := clientAuth == RequireAnyClientCert || clientAuth == RequireAndVerifyClientCert\n\tif needClientCerts && !sessionHasClientCerts {\n\t\treturn false\n\t}\n\tif sessionHasClientCerts && clientAuth == NoClientCert {\n\t\treturn false\n\t}\n\treturn true\n}\n\n// loadSessionFromCache fetches the session state stored under the session id\n// offered by the client and decodes it. It reports false if the cache has no\n// such entry or the entry can not be decoded.\nfunc (hs *serverHandshakeState) loadSessionFromCache(sessionCache ServerSessionCache) (*sessionState, bool) {\n\tsessionParam, ok := sessionCache.Get(fmt.Sprintf(\"%x\", hs.clientHello.sessionId))\n\tif !ok {\n\t\treturn nil, false\n\t}\n\n\tcandidateSession := new(sessionState)\n\tif ok := candidateSession.unmarshal(sessionParam); !ok {\n\t\treturn nil, false\n\t}\n\treturn candidateSession, true"},
+			{Name: "silent-defensive-suite-recheck-clears-suite", Silent: true, File: "bfe_tls/handshake_server.go", Old: "\t\ths.ellipticOk, hs.ecdsaOk, hs.chachaOk, hs.useRC4)\n\tif hs.suite == nil {\n\t\treturn false\n\t}\n\n\tsessionHasClientCerts", New: "\t\ths.ellipticOk, hs.ecdsaOk, hs.chachaOk, hs.useRC4)\n\tif hs.suite == nil {\n\t\treturn false\n\t}\n\t// defensive, cannot fire: tryCipherSuite never returns a TLS1.2-only suite below TLS1.2\n\tif hs.suite.flags&suiteTLS12 != 0 && hs.sessionState.vers < VersionTLS12 {\n\t\ths.suite = nil\n\t\treturn false\n\t}\n\n\tsessionHasClientCerts"},
 			{Name: "silent-guard-extracted", Silent: true, File: "bfe_tls/handshake_server.go", Old: "	if hs.sessionState == nil || hs.sessionState.vers > hs.clientHello.vers {\n		return false\n	}", New: "	if hs.sessionState == nil {\n		return false\n	}\n	sessVers := hs.sessionState.vers\n	if !(sessVers <= hs.clientHello.vers) {\n		state.TlsHandshakeCheckResumeSessionCache.Inc(0)\n		return false\n	}"},
 		},
 	})
@@ -76,10 +78,7 @@ func c44Ticket(c *core.Ctx) {
 	if keyF == nil || dt == nil {
 		return
 	}
-	enc := tlsParam(dt, "encrypted")
-	if enc == nil && len(dt.Params) == 2 {
-		enc = dt.Params[1]
-	}
+	enc := tlsParamAt(dt, 1) // the ticket (by position)
 	isEncSlice := func(v ssa.Value) *ssa.Slice {
 		s, ok := core.StripConv(v).(*ssa.Slice)
 		if !ok || !tlsIsParam(s.X, enc) {
@@ -351,24 +350,9 @@ func c44Resumption(c *core.Ctx, fns []*ssa.Function) {
 			}
 			c.Check("session-source", key, st.Store.Pos(), ok, "the session state comes from decryptTicket("+arg+") but its ok==false outcome can still lead to resumption")
 		default:
-			// a fresh state whose unmarshal succeeded on the cache's value after a hit
-			al, isAlloc := core.StripConv(v).(*ssa.Alloc)
-			ok := false
-			why := "value " + core.Render(v) + " is neither nil, decryptTicket's state nor a freshly unmarshalled cache entry"
-			if isAlloc {
-				ok = tlsDomGuarded(st.Store.Block(), func(f tlsFact) bool {
-					um := tlsCallOf(f.V, umName)
-					if um == nil || !f.Pol || len(um.Call.Args) != 2 || um.Call.Args[0] != ssa.Value(al) {
-						return false
-					}
-					get := tlsExtractOf(um.Call.Args[1], 0)
-					if get == nil || !get.Call.IsInvoke() || get.Call.Method.Name() != "Get" {
-						return false
-					}
-					return tlsDomGuarded(st.Store.Block(), func(g tlsFact) bool { return g.Pol && tlsExtractOf(g.V, 1) == get })
-				})
-				why = "the cached session is used without sessionState.unmarshal(cache value) == true after ServerSessionCache.Get reported a hit"
-			}
+			// a fresh state whose unmarshal succeeded on the cache's value after a hit,
+			// built here or in a helper that reports success through a boolean result
+			ok, why := c44FreshFromCache(v, st.Store.Block(), umName, 0)
 			c.Check("session-source", key, st.Store.Pos(), ok, why)
 		}
 	}
@@ -437,6 +421,11 @@ func c44Resumption(c *core.Ctx, fns []*ssa.Function) {
 		// hs.suite store on the way: tryCipherSuite(sessionState.cipherSuite, config.cipherSuites(), …)
 		okStore := false
 		for _, st := range core.FieldStores([]*ssa.Function{cfr}, suiteF) {
+			// a store on a path that cannot reach this `return true` (clearing
+			// hs.suite before refusing) does not decide the resumed suite
+			if !tlsReaches(cfr, st.Store, nil, func(in ssa.Instruction) bool { return in == ssa.Instruction(r) }) {
+				continue
+			}
 			call := tlsExtractOf(st.Store.Val, 0)
 			if call == nil || !core.CallIs(&call.Call, tryName) || len(call.Call.Args) != 8 {
 				okStore = false
@@ -709,4 +698,66 @@ func c44TicketIntact(c *core.Ctx, dt *ssa.Function, enc *ssa.Parameter, macOK fu
 	c.Check("ticket-intact", "decryptTicket:computed-mac", dt.Pos(), ok,
 		"the expected HMAC is produced with Sum("+got+"): Sum appends to its argument, which shares storage with the received ticket, so the tag in the ticket is overwritten by the expected value and the comparison compares the buffer with itself")
 	c.Min("ticket-intact", 1)
+}
+
+// c44FreshFromCache: at block `at`, v is a freshly allocated session state on
+// which sessionState.unmarshal(value of ServerSessionCache.Get) returned true
+// after Get reported a hit. v may also be result #i of an in-module helper
+// call when, at `at`, a boolean result #j of the same call is known to be
+// true and every return of the helper that can report true in #j returns
+// such a state in #i.
+func c44FreshFromCache(v ssa.Value, at *ssa.BasicBlock, umName string, depth int) (bool, string) {
+	v = core.StripConv(v)
+	if al, isAlloc := v.(*ssa.Alloc); isAlloc {
+		ok := tlsDomGuarded(at, func(f tlsFact) bool {
+			um := tlsCallOf(f.V, umName)
+			if um == nil || !f.Pol || len(um.Call.Args) != 2 || um.Call.Args[0] != ssa.Value(al) {
+				return false
+			}
+			get := tlsExtractOf(um.Call.Args[1], 0)
+			if get == nil || !get.Call.IsInvoke() || get.Call.Method.Name() != "Get" {
+				return false
+			}
+			return tlsDomGuarded(at, func(g tlsFact) bool { return g.Pol && tlsExtractOf(g.V, 1) == get })
+		})
+		return ok, "the cached session is used without sessionState.unmarshal(cache value) == true after ServerSessionCache.Get reported a hit"
+	}
+	if ex, isEx := v.(*ssa.Extract); isEx && depth < 2 {
+		call, _ := ex.Tuple.(*ssa.Call)
+		var h *ssa.Function
+		if call != nil && !call.Call.IsInvoke() {
+			h = call.Call.StaticCallee()
+		}
+		if h != nil && h.Blocks != nil && core.FuncPkgRel(h) == tlsPkg {
+			res := h.Signature.Results()
+			for j := 0; j < res.Len(); j++ {
+				if bt, ok := res.At(j).Type().Underlying().(*types.Basic); !ok || bt.Kind() != types.Bool || j == ex.Index {
+					continue
+				}
+				j := j
+				if !tlsDomGuarded(at, func(f tlsFact) bool { return f.Pol && tlsExtractOf(f.V, j) == call }) {
+					continue
+				}
+				n := 0
+				for _, r := range core.Returns(h) {
+					rv := core.RetVals(r)
+					if len(rv) != res.Len() {
+						return false, "unexpected return arity in " + core.FuncKey(h)
+					}
+					if bv, isK := tlsIsBoolConst(rv[j]); isK && !bv {
+						continue
+					}
+					n++
+					if ok, why := c44FreshFromCache(rv[ex.Index], r.Block(), umName, depth+1); !ok {
+						return false, "through " + core.FuncKey(h) + ": " + why
+					}
+				}
+				if n > 0 {
+					return true, ""
+				}
+			}
+			return false, "the session state is result #" + fmt.Sprint(ex.Index) + " of " + core.FuncKey(h) + ", but no boolean result of that call is established here under which the helper returns a freshly unmarshalled cache entry"
+		}
+	}
+	return false, "value " + core.Render(v) + " is neither nil, decryptTicket's state nor a freshly unmarshalled cache entry"
 }
